@@ -188,6 +188,12 @@ func (c *HostClient) ConnectionCount() (count int) {
 }
 
 func (c *HostClient) WantConnectionCount() (count int) {
+	c.connsLock.Lock()
+	defer c.connsLock.Unlock()
+	// (the queue exists from the first caller that had to wait)
+	if c.connsWait == nil {
+		return 0
+	}
 	return c.connsWait.len()
 }
 
